@@ -5,7 +5,7 @@
      src/acl/Checklist.cc      first matching rule wins; calcImplicitAnswer (reverse of the last rule; no rules: deny)
      src/acl/Url.cc            url_regex is matched against DecodeOrDupe(effectiveRequestUri()).c_str()
      src/anyp/Uri.cc           Uri::parse (host lower-casing, trailing dots, login split + rfc1738_unescape),
-                               Uri::absolute (userinfo only for ftp/unknown schemes), Encode, Decode, authority
+                               Uri::absolute (userinfo only for ftp/unknown schemes), absolutePath (PathChars + "?"), Encode, Decode, authority
      lib/rfc1738.cc            rfc1738_unescape
      src/internal.cc           internalCheck, internalHostnameIs, internalStart, ForSomeCacheManager
      src/cache_manager.cc      ParseUrl, ParseHeaders, CheckPassword, ActionProtection, PasswdGet, start
@@ -46,6 +46,8 @@ Definition pct (c : N) : bytes := [37; hex_uc (c / 16); hex_uc (c mod 16)].
 (* PathChars(): "/:@-._~%!$&'()*+,;=" + ALPHA + DIGIT *)
 Definition path_chars (c : N) : bool :=
   is_alpha c || is_digit c || memb c [47;58;64;45;46;95;126;37;33;36;38;39;40;41;42;43;44;59;61].
+(* absolutePath() since 3db1355: PathChars() + '?' (path_ holds path and query; the query delimiter is kept) *)
+Definition pathq_chars (c : N) : bool := path_chars c || (c =? 63).
 (* UserInfoChars() ":-._~%!$&'()*+,;=" + ALPHA + DIGIT, with '%' removed (uiChars of Uri::absolute) *)
 Definition ui_chars (c : N) : bool :=
   is_alpha c || is_digit c || memb c [58;45;46;95;126;33;36;38;39;40;41;42;43;44;59;61].
@@ -177,7 +179,7 @@ Definition userinfo_part (q : request) : bytes :=
 Definition effective_uri (q : request) : bytes :=
   scheme_image (q_scheme q) ++ [58;47;47] ++ userinfo_part q
   ++ authority (q_scheme q) (norm_host (q_host q)) (q_port q)
-  ++ uri_encode path_chars (q_path q).
+  ++ uri_encode pathq_chars (q_path q).
 
 (* ------------------------------------------------------------------ *)
 (* the built-in manager ACL: url_regex +i ^[^:]+://[^/]+<literal>  (+i = case-SENSITIVE: it clears REG_ICASE) *)
@@ -251,7 +253,7 @@ Definition is_internal (e : env) (q : request) : bool :=
 
 (* internalStart: ForSomeCacheManager(request->url.absolutePath()) *)
 Definition for_cache_manager (q : request) : bool :=
-  starts_with (uri_encode path_chars (q_path q)) mgr_prefix.
+  starts_with (uri_encode pathq_chars (q_path q)) mgr_prefix.
 
 (* ------------------------------------------------------------------ *)
 (* cache manager                                                        *)
